@@ -77,18 +77,18 @@ fn main() {
             layer.case_insensitive(ci0);
             layer.use_dfa(d0);
             let f1 = layer.layer(rec(1));
-            if reconf == 0 { layer.case_insensitive(ci1); layer.use_dfa(d1); } else { layer.add_pattern(p1.clone()); }
+            match reconf { 0 => { layer.case_insensitive(ci1); layer.use_dfa(d1); } 2 => { layer.case_insensitive(ci1); } 3 => { layer.use_dfa(d1); } _ => { layer.add_pattern(p1.clone()); } }
             let f2 = layer.layer(rec(2));
             apply(&f1, op, &name);
             apply(&f2, op, &name);
             let has = |hay: &str, pat: &str, ci: bool| if ci { hay.to_ascii_lowercase().contains(&pat.to_ascii_lowercase()) } else { hay.contains(pat) };
             let want1 = !has(&name, &p0, ci0);
-            let want2 = if reconf == 0 { !has(&name, &p0, ci1) } else { !(has(&name, &p0, ci0) || has(&name, &p1, ci0)) };
+            let want2 = match reconf { 0 | 2 => !has(&name, &p0, ci1), 3 => !has(&name, &p0, ci0), _ => !(has(&name, &p0, ci0) || has(&name, &p1, ci0)) };
             let got = log.lock().unwrap().clone();
             let n1 = got.iter().filter(|x| x.0 == 1).count();
             let n2 = got.iter().filter(|x| x.0 == 2).count();
             println!("patterns {:?} then {}; name {:?}; forwarded: filter1 x{} (expected {}), filter2 x{} (expected {})", p0,
-                     if reconf == 0 { format!("flags ci={} dfa={}", ci1, d1) } else { format!("add_pattern({:?})", p1) }, name, n1, want1 as usize, n2, want2 as usize);
+                     match reconf { 0 => format!("flags ci={} dfa={}", ci1, d1), 2 => format!("case_insensitive({})", ci1), 3 => format!("use_dfa({})", d1), _ => format!("add_pattern({:?})", p1) }, name, n1, want1 as usize, n2, want2 as usize);
             if n1 != want1 as usize || n2 != want2 as usize { v.push("dropped_iff_current_configuration_matches"); }
         }
         "c13_stack" => {
